@@ -533,3 +533,39 @@ def check_witness(match, pattern_text, student_root, problems):
         roots = [b for a, b in pairs if ppm.get(id(a)) is None or id(ppm[id(a)][0]) not in mapped_ids]
         if roots and all(match.match_root.astNode is not b for b in roots):
             problems.append(('match_root-is-not-the-partner-of-the-pattern-root', type(match.match_root.astNode).__name__))
+
+
+# ---- how the student's program is put before CAIT -------------------------------------------------------------------------
+PRESENTED = {'how': 'plain', 'n': 0}
+SECTION_HEAD = 'earlier = 1\nprint(earlier + earlier, [earlier] * 2)\nfor e in [earlier]:\n    earlier = e\n##### Part 1'
+
+
+def present(ctx, src, how=None):
+    """Install `src` as the program the questions are about and return the text that is now the submission's main code.
+    'plain': contextualize_report(src).  'second-section': src is the part after the first marker of a sectioned file whose first
+    part was verified by the Source tool (which keeps that part's tree); the grader has moved to the next section and asks CAIT
+    before (or without) verifying again - the answers are about the CURRENT section's text."""
+    from pedal.core.commands import clear_report, contextualize_report
+    from pedal.core.report import MAIN_REPORT
+    clear_report()
+    if how is None:
+        PRESENTED['n'] += 1
+        how = 'second-section' if PRESENTED['n'] % 4 == 0 and '##### Part' not in src and '\r' not in src and '\x0c' not in src else 'plain'
+        if how == 'second-section':
+            src = '\n' + src
+    if how == 'second-section':
+        from pedal.source import set_source, verify, next_section
+        set_source(SECTION_HEAD + src, sections=True, independent=True)
+        verify()
+        next_section()
+        if MAIN_REPORT.submission.main_code == src:
+            PRESENTED['how'] = how
+            ctx.seen('how_the_program_is_presented', how)
+            ctx.count('programs_presented_as_a_later_section')
+            return src
+        clear_report()      # the text did not split as intended (marker-like lines of its own): plain presentation
+        src = src[1:]
+    PRESENTED['how'] = 'plain'
+    ctx.seen('how_the_program_is_presented', 'plain')
+    contextualize_report(src)
+    return src
